@@ -63,14 +63,13 @@ func upto(n int) []int {
 
 // Run is the check.
 func Run(c *vk.Ctx) {
-	full := family{name: "full", layouts: upto(nLayouts), flags: upto(nFlags), pres: upto(nPre), nms: upto(len(names)), src: upto(nSrc), bound: 1}
-	fams := []family{full}
+	full := family{name: "full", layouts: upto(nLayouts), flags: upto(nFlags), pres: upto(nPre), nms: upto(len(names)), src: upto(nSrc), bound: 2}
+	deep := family{name: "deep", layouts: upto(nLayouts), flags: upto(nFlags), pres: []int{0, 1, 2}, nms: []int{3}, src: []int{1, 2}, bound: 3}
 	if c.Thorough() {
-		fams[0].bound = 2
-		fams = append(fams, family{name: "deep", layouts: upto(nLayouts), flags: upto(nFlags), pres: []int{0, 1, 2, 4}, nms: []int{1, 3}, src: []int{0, 1, 2}, bound: 3})
-	} else {
-		fams = append(fams, family{name: "deep", layouts: upto(nLayouts), flags: upto(nFlags), pres: []int{0, 1, 2}, nms: []int{3}, src: []int{1, 2}, bound: 2})
+		full.bound = 3
+		deep = family{name: "deep", layouts: upto(nLayouts), flags: upto(nFlags), pres: []int{0, 1, 2, 4}, nms: []int{1, 3}, src: []int{1, 2}, bound: 4}
 	}
+	fams := []family{full, deep}
 	for _, f := range fams {
 		c.Note(fmt.Sprintf("family %s: %d layouts x %d flag patterns x %d function tables x %d name rotations x %d source maps x %d modes; every plug-in answer sequence with <= %d non-default answers (Open: %d answers, SourceLine: %d, symbolz POST: %d)",
 			f.name, len(f.layouts), len(f.flags), len(f.pres), len(f.nms), len(f.src), len(modes), f.bound, len(altNames[kOpen]), len(altNames[kSourceLine]), len(altNames[kPost])))
